@@ -219,3 +219,45 @@ func VerifC09BoolBuild() {
 	}
 	verifrt.Reach("end")
 }
+
+// VerifC09CompactMerge: streaming compaction does not recompute a column's statistics from the rows, it
+// merges the statistics of the source files. For a series that lives in two source files, where the field
+// may be missing from the first (added later), the merged statistics must describe exactly the rows of the
+// files that have the field - whatever the compactor's pooled accumulator still holds from the previous
+// column or series.
+func VerifC09CompactMerge() {
+	firstHas := verifrt.Bool("firstHas")
+	a := verifC09IntCol("a", 1+verifrt.Choose("na", 1+verifrt.Tier()), 0)
+	b := verifC09IntCol("b", 1+verifrt.Choose("nb", 2), a.times[len(a.times)-1])
+	ma, mb := NewIntegerPreAgg(), NewIntegerPreAgg()
+	ma.addValues(a.col, a.times)
+	mb.addValues(b.col, b.times)
+	verifrt.Assume(ma.count() > 0 && mb.count() > 0) // a column present in a file has at least one value there
+	ctx := NewReadContext(true)
+	// the accumulator was used for an earlier column: arbitrary leftovers
+	stale := verifC09IntCol("stale", 1, 0)
+	ctx.preAggBuilders.IntegerBuilder().addValues(stale.col, stale.times)
+	mkItr := func(m *IntegerPreAgg) *StreamIterator {
+		return &StreamIterator{FileIterator: &FileIterator{curtChunkMeta: &ChunkMeta{colMeta: []ColumnMeta{{name: "v", ty: 1, preAgg: m.marshal(nil)}}}}}
+	}
+	c := &StreamIterators{Conf: NewTsStoreConfig(), ctx: ctx, colBuilder: NewColumnBuilder()}
+	c.colBuilder.intPreAggBuilder = NewIntegerPreAgg()
+	c.chunkItrs = []*StreamIterator{mkItr(ma), mkItr(mb)}
+	fieldIndex := []int{0, 0}
+	if !firstHas {
+		fieldIndex[0] = -1
+		verifrt.Reach("added-later")
+	}
+	cm := &ColumnMeta{name: "v", ty: 1}
+	err := c.mergeIntegerPreAgg(cm, &record.Field{Name: "v", Type: 1}, fieldIndex)
+	verifrt.Assert(err == nil, "merging stored statistics failed")
+	got := NewIntegerPreAgg()
+	_, err = got.unmarshal(cm.preAgg)
+	verifrt.Assert(err == nil, "merged statistics do not decode")
+	if firstHas {
+		verifC09CheckInt(got, a, b)
+	} else {
+		verifC09CheckInt(got, b)
+	}
+	verifrt.Reach("end")
+}
